@@ -240,6 +240,29 @@ fn c09_special_values() -> Vec<String> {
     ] {
         v.push(s.to_string());
     }
+    // decimals just above / below the midpoint of two adjacent f32 values: parsing through f64 first rounds
+    // them to the midpoint itself and then ties-to-even the wrong way (double rounding)
+    for x in [1.0f32, 2.0, 0.1, 3.0e10, 1.0e-10, 16777216.0, 0.3] {
+        for y in [x, f32::from_bits(x.to_bits() + 1)] {
+            let up = f32::from_bits(y.to_bits() + 1);
+            let mid = (y as f64 + up as f64) / 2.0; // exact in f64
+            let exact = format!("{:.80}", mid);
+            let exact = exact.trim_end_matches('0').to_string();
+            v.push(format!("{}1", exact));
+            v.push(exact.clone());
+            // slightly below: drop the last digit and append 9s is not exact; use exact digits minus a tail instead
+            if let Some(last) = exact.chars().last() {
+                if let Some(d) = last.to_digit(10) {
+                    if d > 0 {
+                        let mut below = exact[..exact.len() - 1].to_string();
+                        below.push(std::char::from_digit(d - 1, 10).unwrap());
+                        below.push_str("9999999999");
+                        v.push(below);
+                    }
+                }
+            }
+        }
+    }
     v.sort();
     v.dedup();
     v
